@@ -9,7 +9,7 @@ from oqv.astutil import call_name, method_call
 from oqv.cfg import CFG
 from oqv.dataflow import DefUse, form_at
 from oqv.forms import Poly, eval_form
-from oqv.model import AnalysisError, Program, Unit, dotted, norm, walk_local
+from oqv.model import AnalysisError, Program, Unit, dotted, norm, walk_local, kw_of
 from oqv.report import Check
 from rules import c14
 
@@ -210,7 +210,7 @@ def k4(prog: Program, chk: Check) -> None:
     if len(calls) != 1:
         raise AnalysisError("K4: correlation_2d_integral call in coeffs not found")
     c = calls[0]
-    kw = {k.arg: k.value for k in c.keywords}
+    kw = kw_of(c)
     ok = isinstance(kw.get("matsubara"), ast.Constant) and kw["matsubara"].value is True
     chk.add("K4", co[0], f"correlation_2d_integral(.., matsubara={norm(kw['matsubara']) if 'matsubara' in kw else '<missing>'})",
             ok, "" if ok else "real-time instead of imaginary-time integrals", c)
